@@ -125,6 +125,13 @@ class OAltParentMapping(AlternativeMapping[OAltParent]):
 
 
 @dataclass(eq=False)
+class OAltGroup:
+    """several objects of the alternatively mapped hierarchy in one conversion"""
+    kids: List[OAltParent] = field(default_factory=list)
+    first: Optional[OAltParent] = None
+
+
+@dataclass(eq=False)
 class OPoint:
     x: float = 0.0
     y: float = 0.0
@@ -157,6 +164,32 @@ class ODrawing:
     best: Optional[OPoly] = None
 
 
-CLASSES = [OItem, OSubItem, OHolder, OSubHolder, OVec, OCarrier, OAltParent, OAltChild, OPoint, OPoly, ODrawing]
-ALTERNATIVE_MAPPINGS = [OVecMapping, OAltParentMapping, OPolyMapping]
+@dataclass(eq=False)
+class OTeam:
+    """alternatively mapped; many-to-many with the normally mapped OMember in both directions"""
+    name: str = ""
+    members: List[OMember] = field(default_factory=list)
+
+
+@dataclass(eq=False)
+class OMember:
+    name: str = ""
+    teams: List[OTeam] = field(default_factory=list)
+
+
+@dataclass
+class OTeamMapping(AlternativeMapping[OTeam]):
+    name: str
+    members: List[OMember]
+
+    @classmethod
+    def create_instance(cls, obj: OTeam):
+        return cls(obj.name, obj.members)
+
+    def create_from_dao(self) -> OTeam:
+        return OTeam(self.name, self.members)
+
+
+CLASSES = [OItem, OSubItem, OHolder, OSubHolder, OVec, OCarrier, OAltParent, OAltChild, OAltGroup, OPoint, OPoly, ODrawing, OTeam, OMember]
+ALTERNATIVE_MAPPINGS = [OVecMapping, OAltParentMapping, OPolyMapping, OTeamMapping]
 TYPE_MAPPINGS = {OMoney: OMoneyType}
